@@ -862,6 +862,17 @@ class Extract:
             e2 = dict(env)
             self.walk(n["body"], pc, e2, fn)
             return
+        if k == "mcall" and any(isinstance(a, dict) and a.get("k") == "closure" for a in n.get("args") or []):
+            # an adapter chain decides whether / for which element the closure runs: that decision is part of the
+            # path condition of everything inside the closure, and it is not interpreted -> opaque atom
+            self.scan_expr(n.get("recv"), pc, env, fn)
+            inner = f_and(pc, self.atom("OPQ(%s.%s)" % (text(n.get("recv")), n.get("m"))))
+            for a in n.get("args") or []:
+                if isinstance(a, dict) and a.get("k") == "closure":
+                    self.walk(a["body"], inner, dict(env), fn)
+                else:
+                    self.scan_expr(a, pc, env, fn)
+            return
         if k == "bin" and n.get("op") == "&&":
             self.scan_expr(n["l"], pc, env, fn)
             self.scan_expr(n["r"], f_and(pc, self.cond(n["l"], env)), env, fn)
